@@ -308,14 +308,14 @@ class SimplicialComplex(Hypergraph):
         except TypeError:
             raise XGIError("The simplex cannot be cast to a frozenset.")
 
-        if self.has_simplex(members):
+        if not members or self.has_simplex(members):
             return
 
         if idx in self._edge.keys():  # check that uid is not present yet
             warn(f"uid {idx} already exists, cannot add simplex {members}")
             return
 
-        idx = next(self._edge_uid) if not idx else idx
+        idx = next(self._edge_uid) if idx is None else idx
 
         self._add_simplex(members, idx, **attr)
 
